@@ -254,6 +254,8 @@ class Cfg:
     maxn: int = 4000
     maxp: int = 150
     maxd: int = 32
+    ver: int | None = None  # StreamParameters(version=...) as the caller passes it; the model has no such input:
+    # the declared version follows from namespace_declarations alone (C13)
 
     def tok(self) -> str:
         fl = "-" if self.flow is None else f"{self.flow[0]}:{self.flow[1]}:{self.flow[2]}"
@@ -275,6 +277,7 @@ def make_options(cfg: Cfg):
         delimited=cfg.delim,
         namespace_declarations=cfg.nd,
         stream_name=cfg.name,
+        **({} if cfg.ver is None else {"version": cfg.ver}),
     )
     preset = LookupPreset(max_names=cfg.maxn, max_prefixes=cfg.maxp, max_datatypes=cfg.maxd)
     flow = None
@@ -294,6 +297,7 @@ def make_stream(cfg: Cfg):
         delimited=cfg.delim,
         namespace_declarations=cfg.nd,
         stream_name=cfg.name,
+        **({} if cfg.ver is None else {"version": cfg.ver}),
     )
     preset = LookupPreset(max_names=cfg.maxn, max_prefixes=cfg.maxp, max_datatypes=cfg.maxd)
     flow = None
